@@ -53,15 +53,6 @@ def _r1(ctx, pkg):
     def res(name):
         return pkg.resolve("Reaction", name)[1]
     # what the methods read, looking through predicate / key helpers of the class they call
-    reads = attrs_read_deep(hf, res)
-    compared = attrs_read_deep(ef, res) | attrs_read_deep(rp, res)
-    extra = sorted(reads - compared)
-    ctx.check(not extra, "R1", "Reaction.__hash__:reads", (RF, hf.lineno),
-              "the hash reads only what __eq__/rpeq compare" if not extra else f"the hash reads {extra}, which equality ignores: equal reactions get different hashes",
-              expected=f"subset of {sorted(compared)}", found=str(sorted(reads)))
-    ctx.check({"reactants", "products"} <= reads, "R1", "Reaction.__hash__:covers both sides", (RF, hf.lineno), "reactants and products both enter the hash")
-    # rpeq itself: the two sides are compared as multisets under Species equality (Counter), or through a canonical order
-    # whose key equal species share -- a name order does not (e- / E, #CO / GCO sort apart and misalign the lists)
     def pieces(fn):
         """the method and the helper methods of the class it calls on self (transitively): one body split in pieces"""
         out, todo = [fn], [fn]
@@ -74,6 +65,41 @@ def _r1(ctx, pkg):
                         out.append(h)
                         todo.append(h)
         return out
+    reads = attrs_read_deep(hf, res)
+    compared = attrs_read_deep(ef, res) | attrs_read_deep(rp, res)
+    extra = sorted(reads - compared)
+
+    def opaque(*fns):
+        """calls through which a method may read attributes this rule does not see: a function that is neither a builtin of the
+        list below nor a helper method of the class (followed by attrs_read_deep), or getattr with a computed name"""
+        KNOWN = {"hash", "tuple", "frozenset", "Counter", "sorted", "list", "set", "len", "sum", "str", "repr", "isinstance", "type", "all", "any", "zip",
+                 "map", "iter", "next", "min", "max", "bool", "int", "float", "enumerate", "reversed", "dict", "super", "id", "print", "NotImplemented"}
+        out = []
+        for fn in fns:
+            for part in pieces(fn):
+                raised = {id(c) for r in ast.walk(part) if isinstance(r, ast.Raise) for c in ast.walk(r)}
+                for c in ast.walk(part):
+                    if not isinstance(c, ast.Call) or id(c) in raised:
+                        continue
+                    f = c.func
+                    if isinstance(f, ast.Name) and f.id in KNOWN:
+                        continue
+                    if isinstance(f, ast.Attribute) and not (isinstance(f.value, ast.Name) and f.value.id == "self" and res(f.attr) is None and f.attr not in ("rpeq",)):
+                        continue        # a method of some value (x.items()), or a helper of the class that was followed
+                    out.append(ast.unparse(f)[:40])
+        return sorted(set(out))
+    if extra and opaque(ef, rp):
+        ctx.unrec("R1", "Reaction.__hash__:reads", (RF, hf.lineno), f"the hash reads {extra}; whether equality compares them is hidden behind {opaque(ef, rp)}")
+    else:
+        ctx.check(not extra, "R1", "Reaction.__hash__:reads", (RF, hf.lineno),
+                  "the hash reads only what __eq__/rpeq compare" if not extra else f"the hash reads {extra}, which equality ignores: equal reactions get different hashes",
+                  expected=f"subset of {sorted(compared)}", found=str(sorted(reads)))
+    if not {"reactants", "products"} <= reads and opaque(hf):
+        ctx.unrec("R1", "Reaction.__hash__:covers both sides", (RF, hf.lineno), f"what the hash reads is hidden behind {opaque(hf)}")
+    else:
+        ctx.check({"reactants", "products"} <= reads, "R1", "Reaction.__hash__:covers both sides", (RF, hf.lineno), "reactants and products both enter the hash")
+    # rpeq itself: the two sides are compared as multisets under Species equality (Counter), or through a canonical order
+    # whose key equal species share -- a name order does not (e- / E, #CO / GCO sort apart and misalign the lists)
     rsorts = [c for part in pieces(rp) for c in ast.walk(part) if isinstance(c, ast.Call) and ast.unparse(c.func) == "sorted"]
     rsrc = ast.unparse(rp)
     EXP = "Counter(self.reactants) == Counter(o.reactants) and Counter(self.products) == Counter(o.products)"
@@ -106,7 +132,7 @@ def _r1(ctx, pkg):
             if lits is None:
                 # a disjunction: some way of being "equal" does not compare both sides
                 sides = [{a for a in ("reactants", "products") if any(a in ast.unparse(x) for x in c)} for c in conj]
-                if all(s_ == {"reactants", "products"} for s_ in sides):
+                if all(s_ == {"reactants", "products"} for s_ in sides) or opaque(rp):
                     ctx.unrec("R1", K, (RF, rp.lineno), f"rpeq is a disjunction this rule does not read: {found}")
                 else:
                     ctx.bad("R1", K, (RF, rp.lineno), "rpeq holds in a case that does not compare both the reactants and the products", expected=EXP, found=found)
@@ -117,9 +143,13 @@ def _r1(ctx, pkg):
                 else:
                     # positive evidence: the side is compared, but not as a multiset (set / frozenset / list / tuple / len ...), or is
                     # not compared at all in a conjunction that is otherwise understood
+                    # (every literal of the conjunction must be understood -- `self.X == o.X` over attribute reads and builtin
+                    # containers; a call of anything else may well be the comparison that seems to be missing)
                     bad_side = [a for a in ("reactants", "products") if ("eq", f"Counter({a})") not in lits]
-                    opaque = [l for l in lits if l[0] != "eq" and any(a in l[-1] for a in bad_side)]
-                    if opaque:
+                    CONT = {"Counter", "set", "frozenset", "sorted", "list", "tuple", "len", "sum", "str"}
+                    unread = [l for l in lits if l[0] != "eq" or any(isinstance(c, ast.Call) and not (isinstance(c.func, ast.Name) and c.func.id in CONT)
+                                                                     for c in ast.walk(ast.parse(l[1], mode="eval")))]
+                    if unread or opaque(rp):
                         ctx.unrec("R1", K, (RF, rp.lineno), f"comparison of {bad_side} not recognised: {found}")
                     else:
                         ctx.bad("R1", K, (RF, rp.lineno), "both sides are compared as Counters (multisets under Species equality and hash)", expected=EXP, found=found)
@@ -128,9 +158,12 @@ def _r1(ctx, pkg):
     if not sorts:
         src = "\n".join(ast.unparse(part) for part in pieces(hf))
         multiset = "Counter(" in src or "frozenset" in src
-        ctx.check(multiset, "R1", "Reaction.__hash__:order-free", (RF, hf.lineno),
-                  "the hash is built from order-free multisets of species (consistent with rpeq's Counter comparison)" if multiset else
-                  "the hash depends on the order of reactants/products", found=src[-120:])
+        if not multiset and opaque(hf):
+            ctx.unrec("R1", "Reaction.__hash__:order-free", (RF, hf.lineno), f"how the hash combines the species is hidden behind {opaque(hf)}")
+        else:
+          ctx.check(multiset, "R1", "Reaction.__hash__:order-free", (RF, hf.lineno),
+                    "the hash is built from order-free multisets of species (consistent with rpeq's Counter comparison)" if multiset else
+                    "the hash depends on the order of reactants/products", found=src[-120:])
         # multiplicity must be kept: a plain frozenset of species loses it but is still consistent (coarser); accept
     else:
         lt = pkg.method("Species", "__lt__")
